@@ -9,7 +9,6 @@ import os
 import re
 import time
 
-import apicheck
 import vlib
 
 DRIVER_SRC = os.path.join(vlib.HARNESS, "matrix_driver.c")
@@ -36,6 +35,23 @@ def split(execs, nchunks):
         chunks[i].append(item)
         sizes[i] += cost(item[1])
     return [c for c in chunks if c]
+
+
+def parse_tuples(out, head):
+    """<<"HEAD", ...>> tuples printed by PrintT; TLC wraps long ones over several lines"""
+    res = []
+    for m in re.finditer(r'<<\s*"%s",(.*?)>>' % head, out, flags=re.S):
+        body = re.sub(r"\s*\n\s*", " ", m.group(1)).strip()
+        try:
+            res.append(ast.literal_eval("(" + body + ",)"))
+        except Exception:
+            raise vlib.Infra("cannot parse %s tuple printed by TLC: %r" % (head, m.group(0)[:300]))
+    return res
+
+
+def parse_vmsg(out):
+    return [{"line": t[0], "exec": t[1], "tags": t[2].split(","), "check": t[3], "codec": t[4], "ctx": t[5]}
+            for t in parse_tuples(out, "VMSG")]
 
 
 def _one_chunk(args):
@@ -66,15 +82,15 @@ def _one_chunk(args):
         raise vlib.Infra("trace %s not fully consumed by %s:\n%s" % (trc, spec, r.out[-3000:]))
     seen = set()
     msgs = []
-    for m in apicheck.parse_vmsg(r.out):
+    for m in parse_vmsg(r.out):
         k = (m["line"], m["check"], m["ctx"])
         if k in seen:
             continue
         seen.add(k)
         m["chunk"] = idx
         msgs.append(m)
-    drift = sorted(set(re.findall(r'^<<"DRIFT", (.*)>>$', r.out, flags=re.M)))
-    stats = [ast.literal_eval("(" + s + ",)") for s in set(re.findall(r'^<<"STAT", (.*)>>$', r.out, flags=re.M))]
+    drift = sorted(set("%s" % (t,) for t in parse_tuples(r.out, "DRIFT")))
+    stats = sorted(set(parse_tuples(r.out, "STAT")))
     os.remove(trc)
     return {"idx": idx, "items": items, "lines": nlines, "ops": nops, "faults": nfault, "states": r.states,
             "distinct": r.distinct, "msgs": msgs, "drift": drift, "stats": stats, "t_driver": t1 - t0, "t_tlc": t2 - t1}
@@ -175,8 +191,8 @@ def simulate_behaviours(bdir, spec, cfg, num, depth, seed, limit):
     if r.violated:
         raise vlib.Infra("%s: an invariant of the model failed during simulation:\n%s" % (spec, r.out[-3000:]))
     out, seen = [], set()
-    for m in re.finditer(r'^<<"BEH", (".*")>>$', r.out, flags=re.M):
-        s = ast.literal_eval(m.group(1))
+    for t in parse_tuples(r.out, "BEH"):
+        s = t[0]
         if s in seen:
             continue
         seen.add(s)
